@@ -29,9 +29,11 @@ RULE = ("pairs (t, t') of seeded expression trees (depth <= 3 quick, <= 5 thorou
         "as dicts (zero totals, two units of one type), and a minority of dimension-incompatible pairs "
         "(both sides must report `units`); distinct = distinct (op, operand quantities, exact values); "
         "non-trivial = the operation succeeded on two different quantities; "
-        "Array leg: a quarter of the operand pairs is also evaluated with Arrays (float64 ndarray / list / tuple, 2-3 "
+        "Array leg: a quarter of the operand pairs is also evaluated with Arrays (ndarray / list / tuple, 2-3 "
         "elements, element i of a leaf = value * multiplier i) on ONE pair of operand objects reused for a+b, b+a, "
-        "(a+b)-b, a-b; every element of every step is a case")
+        "(a+b)-b, a-b; every element of every step is a case; ndarray leaves of shallow operands also with element types int64, int32, "
+        "float32 on the left, the right or both sides (exact integer values go to the model; bound with eps = 2**-24 "
+        "where float32 takes part)")
 EXHAUSTIVE = {"quick": False, "thorough": False}
 ASSUMPTIONS = ["float results stay within K*eps*M (K=64) of the exact model: checked on every run, not proved",
                "the default singleton holds the POSC database that the translator rebuilds (same fill function)"]
@@ -174,7 +176,11 @@ def _oracle_array(c, ctx):
     if _has_raw(t["a"]) or _has_raw(t["b"]):
         return None
     db = ctx.uni.db
-    sa, sb = A.arr_sems(t["a"], ar["mult"], db), A.arr_sems(t["b"], ar["mult"], db)
+    dts, tol = A.arr_dts(ar), A.arr_tol(ar)
+    sa, sb = A.arr_sems(t["a"], ar["mult"], db, dts[0]), A.arr_sems(t["b"], ar["mult"], db, dts[1])
+
+    def rc(x, y, scale=0.0):
+        return A.rel_close(x, y, scale, tol)
     if any(x is None for x in sa + sb) or any(x[0] != y[0] for x, y in zip(sa, sb)):
         return None  # the property speaks about matching dimensions
     if not all(x[2] for x in sa + sb) or any(x[1] is None or not math.isfinite(x[1]) for x in sa + sb):
@@ -182,11 +188,13 @@ def _oracle_array(c, ctx):
     import numpy
 
     def fail(clause, **kw):
-        return _fail(clause, c, container=ar["kind"], element_multipliers=ar["mult"], **kw)
+        return _fail(clause, c, container=ar["kind"], element_multipliers=ar["mult"],
+                     element_types=dict(zip(("a", "b"), dts)), **kw)
 
     with numpy.errstate(all="ignore"):
         try:
-            a, b = A.build_array(t["a"], ar["mult"], ar["kind"]), A.build_array(t["b"], ar["mult"], ar["kind"])
+            a = A.build_array(t["a"], ar["mult"], ar["kind"], dts[0])
+            b = A.build_array(t["b"], ar["mult"], ar["kind"], dts[1])
             a0, b0 = A.elems(a), A.elems(b)
         except Exception:
             return None
@@ -201,13 +209,13 @@ def _oracle_array(c, ctx):
             if not all(math.isfinite(x) for x in got):
                 return None
             for i in range(n):
-                if not A.rel_close(got[i], ma[i] + mb[i], max(abs(ma[i]), abs(mb[i]))):
+                if not rc(got[i], ma[i] + mb[i], max(abs(ma[i]), abs(mb[i]))):
                     return fail("Array a+b: element = a's element + b's element re-expressed (compared in base units)",
                                 element=i, got=got[i], want=ma[i] + mb[i])
             r2 = b + a  # the SAME operand objects
             got2 = A.mags_of(r2, db)
             for i in range(n):
-                if not A.rel_close(got2[i], ma[i] + mb[i], max(abs(ma[i]), abs(mb[i]))):
+                if not rc(got2[i], ma[i] + mb[i], max(abs(ma[i]), abs(mb[i]))):
                     return fail("Array a+b and b+a (same operand objects) denote the same amount", element=i,
                                 ab_base=got[i], ba_base=got2[i], a_values_now=A.elems(a), a_values_built=a0,
                                 b_values_now=A.elems(b), b_values_built=b0)
@@ -216,13 +224,13 @@ def _oracle_array(c, ctx):
                 return fail("Array (a+b)-b has a's units and categories", got=repr(back.GetQuantity()))
             bv = A.elems(back)
             for i in range(n):
-                if not A.rel_close(bv[i], a0[i], max(abs(a0[i]), abs(rv[i]), abs(rv[i] - a0[i]))):
+                if not rc(bv[i], a0[i], max(abs(a0[i]), abs(rv[i]), abs(rv[i] - a0[i]))):
                     return fail("Array (a+b)-b denotes a (same operand objects)", element=i, got=bv[i], want=a0[i],
                                 a_values_now=A.elems(a))
             d = a - b
             gd = A.mags_of(d, db)
             for i in range(n):
-                if not A.rel_close(gd[i], ma[i] - mb[i], max(abs(ma[i]), abs(mb[i]))):
+                if not rc(gd[i], ma[i] - mb[i], max(abs(ma[i]), abs(mb[i]))):
                     return fail("Array a-b: element = a's element - b's element re-expressed (operands reused)",
                                 element=i, got=gd[i], want=ma[i] - mb[i], a_values_now=A.elems(a), a_values_built=a0)
         except OverflowError:
